@@ -483,6 +483,34 @@ theorem finishLoop_ok (FS : FinderSound F d dict 273) (P : FastParams) (hP : P.o
       rw [this]
       rfl
 
+/-- the history of the first `q0` bytes of `d` (the used part of the preset dictionary) -/
+def histOf (d : Array UInt8) (q0 : Nat) : Hist := Lzma2.pushAll #[] (sliceNat d 0 q0)
+
+theorem histOf_is (d : Array UInt8) (q0 : Nat) : HistIs d q0 (histOf d q0) := by
+  have := pushAll_slice d q0 0 #[] (HistIs.empty d)
+  rw [Nat.zero_add] at this
+  exact this
+
+/-- **one encoder instance, every input**: the events `segEvents` returns are valid from the writer's initial
+    state (fresh coder, history = the `q0` preset bytes) and denote exactly the bytes `d[q0 ..]`. -/
+theorem segEvents_ok (FS : FinderSound F d dict 273) (P : FastParams) (hP : P.ok) (nice : Nat) (pr : Params)
+    (dictBuf : Nat) (hd1 : 1 ≤ dict) (hdb : min dict d.size ≤ dictBuf) (h32 : dict ≤ 2 ^ 32)
+    (q0 : Nat) (hq : q0 ≤ d.size) (evs : List Ev) (c : Coder) (ps : Probs)
+    (h : segEvents F P nice pr d q0 = some evs) :
+    EvsOk pr dictBuf evs true c ps (histOf d q0) (sliceNat d q0 (d.size - q0)) := by
+  unfold segEvents at h
+  have hh := histOf_is d q0
+  obtain ⟨evs', hev, hok⟩ := finishLoop_ok FS P hP nice pr dictBuf hd1 hdb h32 (d.size + 1) _ [] evs
+    (histOf d q0) true c ps h
+    ⟨histOf d q0, rfl, hh, by show _ + 0 = q0; rw [hh.1, Nat.add_zero], by show q0 + 0 ≤ d.size; omega,
+      fun _ => rfl, repsLt_init _ (Nat.le_max_right _ 1), repsLt_init _ hd1, FS.skip_R _ _ FS.init_R,
+      by show FS.pos (F.skip d q0 F.init) = q0 + 0; rw [FS.skip_pos _ _ FS.init_R, FS.init_pos]; omega,
+      Or.inl rfl, rfl, rfl, rfl⟩
+    rfl rfl rfl rfl
+  rw [List.reverse_nil, List.nil_append] at hev
+  rw [hev, hh.1] at *
+  exact hok
+
 end Seg
 
 end LzmaVerif.Lzma2W
